@@ -231,7 +231,12 @@ func runRLK(c *eng.Ctx, cf cfg) {
 				if i%2 == 1 {
 					in = agg1Ser
 				}
+				ephBefore, skBefore := eph[i].CopyNew(), e.sks[i].CopyNew()
 				protos[i].GenShareRoundTwo(eph[i], e.sks[i], in, &r2[i])
+				// round two may have to be run again (lost messages, a re-broadcast aggregate): the ephemeral secret
+				// and the secret key it reads are inputs
+				c.Count("round_two_inputs_compared", 1)
+				c.Check(eph[i].Equal(ephBefore) && e.sks[i].Equal(skBefore), "C14|"+P+".GenShareRoundTwo|secret-input-modified", nil)
 			}
 		}) {
 			continue
